@@ -400,7 +400,8 @@ def c04_case(rng):
     pre = []
     if rng.random() < 0.4:
         sim_props.inject_redeclare(rng, spec, pre)      # e.g. one leg of an efficiency sweep on existing objects
-    return {'t': 'c04', 'spec': spec, 'pre': pre, 'kT': rng.uniform(2.0, 5.0), 'h0': rng.uniform(0.1, 0.2)}
+    return {'t': 'c04', 'spec': spec, 'pre': pre, 'kT': rng.uniform(2.0, 5.0), 'h0': rng.uniform(0.1, 0.2),
+            'sweep': rng.random() < 0.35}
 
 
 def closed_form(spec, tr):
@@ -456,7 +457,14 @@ def eval_c04(ctx, case):
         n = steps0 * 2 ** k
         if n > 1200:
             break
-        s = dict(spec, ops=pre + [{'op': 'run', 'dt': [dt, 'sec'], 'T': [dt * n, 'sec'], 'stop': None, 'ctrl': True}])
+        lead = []
+        if case.get('sweep') and k > 0:
+            # the usual way to sweep the time step on one chain: the same Solver, reset and the initial conditions again
+            lead = [{'op': 'run', 'dt': [2 * dt, 'sec'], 'T': [2 * dt * 4, 'sec'], 'stop': None, 'ctrl': True}, {'op': 'reset'},
+                    {'op': 'init', 'pos': spec['init']['pos'], 'speed': spec['init']['speed']}]
+            if spec['motor'].get('pwm0') is not None:
+                lead.append({'op': 'pwm', 'v': spec['motor']['pwm0']})
+        s = dict(spec, ops=pre + lead + [{'op': 'run', 'dt': [dt, 'sec'], 'T': [dt * n, 'sec'], 'stop': None, 'ctrl': True}])
         tr, _ = sim.simulate(s)
         if tr['error'] is not None or len(tr['time']) != n + 1:
             ctx.violation(case, {'why': f"run with dt = {dt} failed or has the wrong length: {tr['error']}, {len(tr['time'])} instants for {n} steps"})
